@@ -370,3 +370,7 @@ package utils
 //@     assert[C20:shutdown-announced-only-after-a-signal] got == 1 && arg0 == ch && closedCh == 0
 //@     do closedCh = closedCh + 1
 //@   ensures[C20:a-received-signal-is-announced] closedCh == 1
+
+//@ func RoundTripperWithVMIdentity props(C20,C07)
+//@   go-opaque RoundTripperWithVMIdentity$1
+//@   ensures[C07:transport-kept-or-wrapped] wrapped != nil ==> r0 != nil
